@@ -356,10 +356,26 @@ func (fg *FG) volatileFamilies() []string {
 	for name := range fg.g.ct.Volatile {
 		fam := "G_any_" + sanitize(name)
 		if _, ok := fg.heapSort[fam]; !ok {
-			env := &Env{fg: fg, vars: map[string]Val{}, st: &State{heaps: map[string]string{}}}
-			t, srt := env.resolveType(fg.g.ct.GhostFields["any."+name])
-			if t != nil {
-				srt = fg.sorts.sortOf(t)
+			// a volatile ghost whose type belongs to a package that is not part of this run cannot be
+			// mentioned by any contract of this run: it is simply not there
+			srt, ok := func() (srt string, ok bool) {
+				defer func() {
+					if r := recover(); r != nil {
+						if _, isGen := r.(genErr); !isGen {
+							panic(r)
+						}
+						ok = false
+					}
+				}()
+				env := &Env{fg: fg, vars: map[string]Val{}, st: &State{heaps: map[string]string{}}}
+				t, s := env.resolveType(fg.g.ct.GhostFields["any."+name])
+				if t != nil {
+					s = fg.sorts.sortOf(t)
+				}
+				return s, true
+			}()
+			if !ok {
+				continue
 			}
 			fg.heapSort[fam] = "(Array Int " + srt + ")"
 		}
